@@ -11,7 +11,10 @@ WORLDS (StubWorld.tla generates, StubImport.tla section WORLDS judges): the read
 import DAG of analysed modules.  Family "dag": upstream modules m1..mN over two fixture modules,
 importing each other plainly or under alias names that collide across modules; family "gen": a
 generic class with its type parameters in every declaration order, instances produced by annotated
-and inferred functions / variables / a subclass, in the class's module or one module further.  TLC
+and inferred functions / variables / a subclass, in the class's module or one module further;
+family "nest": a NESTED class m1.Outer.Inner exposed as a variable, function results (inferred and
+annotated), attribute / method result of other classes, a base class, in its own module or in a
+second module that imports m1 plainly or under an alias (dotted class names in the tables).  TLC
 exports every world with the reads the spec derives for the reader (attribute / method chains over
 the last module's exports); the driver renders the modules, analyses them in dependency order
 (each sees the earlier ones through their emitted stubs), records every module's inferred
@@ -215,6 +218,32 @@ def render_world(w):
       lines += body["meth"] + body["var"] + body["fn"]
       out.append(("m%d" % k, "\n".join(lines) + "\n"))
     return out
+  if w["fam"] == "nest":
+    # StubImport!NestCT: m1 declares Outer with the nested class Inner, and Holder; the last module
+    # (m1 or m2) uses the nested class as w.uses says
+    m1 = ["class Outer:",
+          "  class Inner:",
+          "    def __init__(self):\n      self.z = 1.5",
+          "    def who(self):\n      return b'b'",
+          "  def __init__(self):\n    self.n = 0",
+          "class Holder:",
+          "  def __init__(self):\n    self.inn = Outer.Inner()",
+          "  def mk(self):\n    return Outer.Inner()"]
+    ref = {"same": "", "plain": "m1.", "alias": "u."}[w["loc"]]
+    pro = {"same": [], "plain": ["import m1"], "alias": ["import m1 as u"]}[w["loc"]]
+    inner = ref + "Outer.Inner"
+    for u in w["uses"]:
+      pro.append({
+          "var": "x = %s()" % inner,
+          "fn": "def f():\n  return %s()" % inner,
+          "ann": "def fa() -> %s:\n  return %s()" % (inner, inner),
+          "hold": "h = %sHolder()" % ref,
+          "sub": "class S(%s):\n  pass\ns = S()" % inner,
+          "kcls": ("class K:\n  def __init__(self):\n    self.inn = %s()\n"
+                   "  def mk(self):\n    return %s()" % (inner, inner))}[u])
+    if w["loc"] == "same":
+      return [("m1", "\n".join(m1 + pro) + "\n")]
+    return [("m1", "\n".join(m1) + "\n"), ("m2", "\n".join(pro) + "\n")]
   ps, n = w["params"], len(w["params"])
   lines = ["from typing import Generic, List, TypeVar"]
   lines += ["%s = TypeVar(%r)" % (p, p) for p in ps]
@@ -251,7 +280,8 @@ def _ann(t):
 
 
 def _ann_modules(t):
-  out = {t[1].rsplit(".", 1)[0]} if "." in t[1] else set()
+  out = {t[1].split(".", 1)[0]} if "." in t[1] else set()   # (world modules are top-level; a nested
+  #                                                             class is m.Outer.Inner)
   for x in t[2]:
     out |= _ann_modules(x)
   return out
@@ -335,12 +365,19 @@ def qterm(t, mod, local):
 def decl_tables(mod, ast):
   """Inferred AST of module `mod` -> (names, frets, classes) in StubImport's table format."""
   from pytype.pytd import pytd
-  local = {c.name for c in ast.classes}
+  def nested(c, qn):
+    # (a nested class is named by its own name inside the enclosing class; types refer to it by the
+    # dotted path from the module)
+    yield qn, c
+    for k in c.classes:
+      yield from nested(k, k.name if k.name.startswith(qn + ".") else "%s.%s" % (qn, k.name))
+  allc = [qc for c in ast.classes for qc in nested(c, c.name)]
+  local = {qn for qn, _ in allc}
   names = {c.name: qterm(c.type, mod, local) for c in ast.constants}
   frets = {f.name: qterm(f.signatures[0].return_type, mod, local)
            for f in ast.functions if len(f.signatures) == 1}
   classes = {}
-  for c in ast.classes:
+  for cname, c in allc:
     bases = []
     # declaration order of the type parameters: the class statement's Generic[...] base where there
     # is one (it is what the stub text says), else the template of the inferred class
@@ -357,7 +394,7 @@ def decl_tables(mod, ast):
             for m in c.methods if len(m.signatures) == 1}
     attrs["_"] = WANY          # (the JSON bridge has no empty record)
     rets["_"] = WANY
-    classes["%s.%s" % (mod, c.name)] = {
+    classes["%s.%s" % (mod, cname)] = {
         "tpl": tpl, "bases": bases,
         "attrs": attrs, "rets": rets}
   names["_"] = WANY
@@ -425,7 +462,7 @@ def world_one(case):
         ast, pyi, errs = _analyse_upstream(name, src, d)
       except Exception as e:  # pylint: disable=broad-except
         what = "%s: %s: %s" % (name, type(e).__name__, str(e)[:300])
-        if k == 0 and w["fam"] == "gen":     # imports nothing of ours: not a matter of stubs
+        if k == 0 and w["fam"] in ("gen", "nest"):     # imports nothing of ours: not a matter of stubs
           return {"upfail": what, "w": w, "srcs": srcs}
         # a later upstream module is itself a reader of the earlier modules' stubs
         return {"crash": what, "w": w, "world": wcase, "srcs": srcs, "pyis": pyis}
@@ -475,7 +512,9 @@ def world_cfg(family, **kw):
   d = dict(Family='"%s"' % family, NUp=2, MinImpI=1, MaxImpI=1, MinImpL=2, MaxImpL=2,
            AliasNames='{"u"}', UsesInner='{"meth"}', UsesLast='{"var", "fn"}',
            FixClasses='{"Cfg"}', FirstTargets='{"c2"}', TVarNames='{"K", "T", "V"}', MinParams=2,
-           MaxParams=2, AttrShapes='{"plain", "list"}', Locs='{"same", "alias"}', Subs="{TRUE}")
+           MaxParams=2, AttrShapes='{"plain", "list"}', Locs='{"same", "alias"}', Subs="{TRUE}",
+           NestKinds='{"var", "fn", "ann", "hold", "sub", "kcls"}',
+           NestLocs='{"same", "plain", "alias"}', MinUses=4)
   d.update(kw)
   return ("INIT Init\nNEXT Next\nCONSTANTS\n" + "".join(" %s = %s\n" % kv for kv in sorted(d.items()))
           + "INVARIANT WellFormed\nINVARIANT Closed\nINVARIANT ExportInv\n")
@@ -504,6 +543,10 @@ def world_text(w):
     return "; ".join("m%d: %s" % (k, ", ".join(
         "import %s%s -> %s" % (i["t"], " as " + i["a"] if i["a"] else "", i["u"]) for i in imps))
                      for k, imps in enumerate(w["mods"], 1))
+  if w["fam"] == "nest":
+    return "nested class m1.Outer.Inner used as %s %s" % (
+        "/".join(w["uses"]),
+        {"same": "in its own module", "plain": "in m2 (import m1)", "alias": "in m2 (import m1 as u)"}[w["loc"]])
   return "class P(Generic[%s]) attrs %s, producers %s%s" % (
       ", ".join(w["params"]), "/".join(w["shapes"]),
       {"same": "in P's module", "plain": "in m2 (import m1)", "alias": "in m2 (import m1 as u)"}[w["loc"]],
@@ -547,9 +590,11 @@ def main():
                                                  UsesLast='{"var", "fn", "meth"}',
                                                  FirstTargets='{"c1", "c2"}'), {}, 900))
       jobs.append(("gen", "StubWorld", world_cfg("gen", **WIDE_GEN), {}, 460))
+      jobs.append(("nest", "StubWorld", world_cfg("nest", MinUses=1), {}, 189))
     else:
       jobs.append(("dag", "StubWorld", world_cfg("dag"), {}, 96))
       jobs.append(("gen", "StubWorld", world_cfg("gen"), {}, 48))
+      jobs.append(("nest", "StubWorld", world_cfg("nest"), {}, 66))
 
     def gen(job):
       kind, module, cfg, kw, least = job
@@ -624,7 +669,8 @@ def main():
   run.put("wall_validation_s", round(time.time() - t1, 1))
   nslots = sum(len(c["slots"]) for c in cases if c["fam"] == "prog")
   judged = {st["i"]: st["judged"] for st in tlc.parse_cases(r.out, "STAT")}
-  wcases = [(n, c) for n, c in enumerate(cases, 1) if c["fam"] in ("dag", "gen")]
+  nestedj = {st["i"]: st["nested"] for st in tlc.parse_cases(r.out, "STAT")}
+  wcases = [(n, c) for n, c in enumerate(cases, 1) if c["fam"] in ("dag", "gen", "nest")]
   common.require(all(n in judged for n, _ in wcases), "TraceC06 did not report on every world")
   nreads = sum(len(c["reads"]) for _, c in wcases)
   njudged = sum(judged[n] for n, _ in wcases)
@@ -647,11 +693,20 @@ def main():
     nna = sum(judged[n] for n, c in wcases if c["fam"] == "gen" and keep[n - 1]["nonalpha"])
     ndag = sum(1 for _, c in wcases if c["fam"] == "dag")
     ngen = sum(1 for _, c in wcases if c["fam"] == "gen")
+    nnest = sum(1 for _, c in wcases if c["fam"] == "nest")
+    nnj = sum(nestedj[n] for n, _ in wcases)
+    nnj2 = sum(nestedj[n] for n, c in wcases if c["fam"] == "nest" and c["w"]["loc"] != "same")
+    run.put("nest_worlds", nnest)
+    run.put("reads_judged_through_nested_class_types", nnj)
+    run.put("reads_judged_through_nested_class_of_another_module", nnj2)
     run.put("dag_worlds", ndag)
     run.put("gen_worlds", ngen)
     run.put("reads_judged_in_alias_collision_worlds", ncol)
     run.put("reads_judged_in_nonalphabetical_generic_worlds", nna)
     common.require(ndag >= 100 and ngen >= 48, "too few worlds: dag %d gen %d" % (ndag, ngen))
+    common.require(nnest >= 66 and nnj >= 1200 and nnj2 >= 800,
+                   "nested classes were not exercised (%d worlds, %d reads through a nested class type, "
+                   "%d through one of another upstream module)" % (nnest, nnj, nnj2))
     common.require(ncol >= 120, "alias collisions across modules were not exercised (%d reads)" % ncol)
     common.require(nna >= 400, "non-alphabetical generic templates were not exercised (%d reads)" % nna)
     common.require(njudged * 10 >= nreads * 9, "too many reads the upstream declarations do not type: "
@@ -660,9 +715,9 @@ def main():
     if "slots" in k:
       run.sample({"A": k["src"][:600], "B": k["bsrc"][:600], "slots": k["slots"][:3]})
       break
-  for fam in ("dag", "gen"):
+  for fam in ("dag", "gen", "nest"):
     for k in keep:
-      if k.get("case", {}).get("fam") == fam and (k["collide"] or k["nonalpha"]):
+      if k.get("case", {}).get("fam") == fam and (k["collide"] or k["nonalpha"] or fam == "nest"):
         run.sample({"world": world_text(k["case"]["w"]), "modules": k["srcs"], "B": k["bsrc"][:500],
                     "seen": {c: [_t(t) for t in v] for c, v in k["case"]["seen"].items()}})
         break
